@@ -18,7 +18,7 @@ import contextlib
 import random
 from typing import Dict, List, Optional, Tuple
 
-from ..core import RunResult, ScenarioInvalid, digest_of, jhash, tree_digest, weighted
+from ..core import CleanArmFailed, RunResult, ScenarioInvalid, digest_of, jhash, tree_digest, weighted
 from ..gen_akai import expected_exports as akai_expected, gen_buildable as gen_akai
 from ..gen_roland import expected_exports as roland_expected, gen_model as gen_roland
 from ..model import akai as A
@@ -250,13 +250,13 @@ def run(sc: dict) -> RunResult:
         s0 = clk0.steps
         if clean.exc or clean.budget:
             # the clean arm itself fails: C01/C02/C03 own that; nothing to compare against
-            raise ScenarioInvalid("clean arm failed: %s %s" % (clean.exc, clean.exc_msg))
+            raise CleanArmFailed("clean arm failed: %s %s" % (clean.exc, clean.exc_msg))
         clean_pcm: Dict[str, W.WavInfo] = {}
         for p in clean.reported:
             try:
                 clean_pcm[p] = W.walk(clean.tree[p])
             except (W.WavInvalid, KeyError):
-                raise ScenarioInvalid("clean arm wrote an invalid file")
+                raise CleanArmFailed("clean arm wrote an invalid file")
         budget = 5_000_000 + 50 * s0
         crash_points = 0
         for n, (cut, label) in enumerate(cuts):
